@@ -248,49 +248,33 @@ def check_threshold_core(ctx, prefix="C04"):
         lo, hi = int_interval_facts(b, ob, {"copy": {"l": THR, "p": []}})
         ctx.inst(prefix + "/D1", "threshold >= 1 before Ok@%d" % ok_blocks.index(ob), lo is not None and lo >= 1,
                  "dominating comparisons give threshold in [%s, %s]" % (lo, hi), b.at(ob))
-    # D2: authorised keys keyed by their own key_id
-    coll = None
-    auth_map_bb = None
-    sig_map_bb = None
-    for i, t in b.calls_named("std::iter::Iterator::collect", "std::iter::FromIterator::from_iter"):
-        g = " ".join(t.get("generics", []))
-        if "PublicKey" in g and "HashMap<" in g or ("BTreeMap<" in g and "PublicKey" in g):
-            coll = (i, t)
-    if coll is None:
-        ctx.bad(prefix + "/D2", "authorised key table", "no map of authorised keys collected from the key iterator (cannot show de-duplication by key id)")
-    else:
-        i, t = coll
-        # the collected iterator is a map() over the parameter with a closure (k.key_id(), k)
-        src = def_call(b, t["args"][0])
-        okc = False
-        detail = "collect source not a map() closure"
-        if src and callee_name(src[1]) == "std::iter::Iterator::map":
-            clo = None
-            p = op_place(src[1]["args"][1])
-            d = b.single_def(p["l"]) if p else None
-            if d and d.kind == "assign" and d.node["rv"].get("agg") == "closure":
-                clo = d.node["rv"]["closure_key"]
-            if clo in fx.fns:
-                cb = Body(fx.fns[clo])
-                ctx.touch_body(cb)
-                k_leaves = cb.trace({"l": 0, "p": []}, (F0,))
-                v_leaves = cb.trace({"l": 0, "p": []}, (F1,))
-                kid = [lf for lf in k_leaves if lf.kind == "call" and callee_name(lf.data[1]) == "crypto::PublicKey::key_id"]
-                okc = len(k_leaves) == 1 and len(kid) == 1 and len(v_leaves) >= 1 and \
-                    root_ids(cb, kid[0].data[1]["args"][0]) == frozenset(("param", lf.data, lf.path) for lf in v_leaves if lf.kind == "param") \
-                    and all(lf.kind == "param" and lf.data == 2 for lf in v_leaves)
-                detail = "table key = {%s}, value = {%s}" % (", ".join(leaf_s(cb, l) for l in k_leaves), ", ".join(leaf_s(cb, l) for l in v_leaves))
-            keys_src = root_ids(b, src[1]["args"][0])
-            okc = okc and keys_src == frozenset([("param", 3, ())])
-            auth_map_bb = src[0]
-            detail += "; iterated collection roots %s" % sorted(keys_src)
-        ctx.inst(prefix + "/D2", "authorised key table keyed by PublicKey::key_id", okc, detail, t["at"])
+    # D2: the table the signatures' key ids are looked up in is keyed by each key's own key_id (whatever fills it:
+    #     map + collect, an insertion loop, ...)
+    CONTENT = {"__content__": True}
+    lookups = [(i, t) for (i, t) in b.calls_named("std::collections::HashMap::get", "std::collections::BTreeMap::get")
+               if "PublicKey" in (t.get("arg_tys") or [""])[0]]
+    if not lookups:
+        ctx.bad(prefix + "/D2", "authorised key table", "no lookup of a signature's key id in a table of authorised keys (cannot show de-duplication by key id)")
+    for (i, t) in lookups:
+        kl = b.trace(t["args"][0], (ELEM, F0), None, CONTENT)
+        vl = b.trace(t["args"][0], (ELEM, F1), None, CONTENT)
+        vroots = frozenset((l.kind, l.data if l.kind == "param" else l.data[0], l.path) for l in vl)
+        okc = bool(kl) and bool(vl) and all(l.kind == "call" and callee_name(l.data[1]) == "crypto::PublicKey::key_id" and not l.path and
+                                            root_ids(b, l.data[1]["args"][0]) == vroots for l in kl) \
+            and all(l.kind == "param" and l.data == 3 and l.path == (ELEM,) for l in vl)
+        ctx.inst(prefix + "/D2", "authorised key table keyed by PublicKey::key_id", okc,
+                 "table key = {%s}, value = {%s}" % (", ".join(leaf_s(b, l) for l in kl), ", ".join(leaf_s(b, l) for l in vl)), t["at"])
     # D3: signatures visited once per key id: the counting loop iterates a map keyed by Signature::key_id
     loop_next = None
-    for i, t in b.calls_named("std::iter::Iterator::next"):
-        a0 = (t.get("arg_tys") or [""])[0]
-        if "Signature" in a0:
-            loop_next = (i, t)
+    # the counting loop: the innermost loop around the call that checks a signature
+    for (vi, vt_) in b.calls_named(PK_VERIFY):
+        lps = [l for l in b.loops().values() if vi in l]
+        if not lps:
+            continue
+        lp = min(lps, key=len)
+        for i, t in b.calls_named("std::iter::Iterator::next"):
+            if i in lp and all(b.dom_plain(i, e[0]) for (e, tb) in b.back_edges() if tb in lp and b.loop_blocks(tb) == lp):
+                loop_next = (i, t)
     if loop_next is None:
         ctx.bad(prefix + "/D3", "counting loop", "no loop over signatures found")
         return
@@ -299,26 +283,13 @@ def check_threshold_core(ctx, prefix="C04"):
     uniq = ("hash_map::" in a0 or "btree_map::" in a0 or "btree::map::" in a0) and "KeyId" in a0
     detail = "counting loop iterates %s" % a0
     if uniq:
-        # the map must be collected from (sig.key_id(), sig) pairs
-        okk = False
-        for i, t in b.calls_named("std::iter::Iterator::collect", "std::iter::FromIterator::from_iter"):
-            g = " ".join(t.get("generics", []))
-            if "Signature" in g and ("HashMap<" in g or "BTreeMap<" in g):
-                src = def_call(b, t["args"][0])
-                if src and callee_name(src[1]) == "std::iter::Iterator::map":
-                    p = op_place(src[1]["args"][1])
-                    d = b.single_def(p["l"]) if p else None
-                    if d and d.kind == "assign" and d.node["rv"].get("agg") == "closure" and d.node["rv"]["closure_key"] in fx.fns:
-                        cb = Body(fx.fns[d.node["rv"]["closure_key"]])
-                        k_leaves = cb.trace({"l": 0, "p": []}, (F0,))
-                        v_leaves = cb.trace({"l": 0, "p": []}, (F1,))
-                        kid = [lf for lf in k_leaves if lf.kind == "call" and callee_name(lf.data[1]) == "crypto::Signature::key_id"]
-                        okk = len(k_leaves) == 1 and len(kid) == 1 and all(lf.kind == "param" and lf.data == 2 for lf in v_leaves) and \
-                            root_ids(cb, kid[0].data[1]["args"][0]) == frozenset(("param", lf.data, lf.path) for lf in v_leaves)
-                        sig_src = root_ids(b, src[1]["args"][0])
-                        sig_map_bb = src[0]
-                        okk = okk and all(r[0] == "param" and r[1] == 1 and r[2][:1] == (("f", "signatures"),) for r in sig_src)
-                        detail += "; map built from (Signature::key_id(sig), sig) over self.signatures: %s" % okk
+        kl = b.trace(lt["dst"], (SOME, F0, F0), None, CONTENT)
+        vl = b.trace(lt["dst"], (SOME, F0, F1), None, CONTENT)
+        vroots = frozenset((l.kind, l.data if l.kind == "param" else l.data[0], l.path) for l in vl)
+        okk = bool(kl) and bool(vl) and all(l.kind == "call" and callee_name(l.data[1]) == "crypto::Signature::key_id" and not l.path and
+                                            root_ids(b, l.data[1]["args"][0]) == vroots for l in kl) \
+            and all(l.kind == "param" and l.data == 1 and l.path == (("f", "signatures"), ELEM) for l in vl)
+        detail += "; map entries are (Signature::key_id(sig), sig) over self.signatures: %s" % okk
         uniq = uniq and okk
     ctx.inst(prefix + "/D3", "each signature key id counted at most once", uniq, detail, lt["at"])
     # D4: the counter
@@ -396,16 +367,15 @@ def check_threshold_core(ctx, prefix="C04"):
             (_, (vb, vt)) = got_ok
             # lookup key = map key of the iterated (key id, signature) pair; verified signature = its value;
             # verifying key = value of the authorised table found by that lookup
+            # lookup key = the key id of the very signature that is verified; verifying key = what that lookup found
             sig_roots = root_ids(b, vt["args"][2])
-            lookup_key_roots = root_ids(b, gt_["args"][1])
-            same_sig = sig_map_bb is not None and sig_roots == frozenset([("call", sig_map_bb, (ELEM, F1))]) \
-                and lookup_key_roots == frozenset([("call", sig_map_bb, (ELEM, F0))])
-            kl = b.trace(vt["args"][0])
-            key_from_lookup = auth_map_bb is not None and bool(kl) and all(
-                lf.kind == "call" and lf.data[0] == auth_map_bb and lf.path == (ELEM, F1) and "HashMap::get" in lf.via for lf in kl) \
-                and root_ids(b, gt_["args"][0]) == frozenset([("call", auth_map_bb, ())])
+            lkl = b.trace(gt_["args"][1], (), None, {"__content__": True})
+            same_sig = bool(lkl) and all(l.kind == "call" and callee_name(l.data[1]) == "crypto::Signature::key_id" and not l.path and
+                                         root_ids(b, l.data[1]["args"][0]) == sig_roots for l in lkl)
+            kl = b.trace(vt["args"][0], (), lambda tt: callee_name(tt) in ("std::collections::HashMap::get", "std::collections::BTreeMap::get"))
+            key_from_lookup = bool(kl) and all(lf.kind == "call" and lf.data[0] == gb and lf.path == (SOME, F0) for lf in kl)
             ok4 = same_sig and key_from_lookup
-            detail += "; signature and lookup key are the two halves of the same loop element: %s; verifying key is the value found by that lookup in the authorised table: %s" % (same_sig, key_from_lookup)
+            detail += "; the lookup key is the key id of the signature being verified: %s; the verifying key is the value found by that lookup: %s" % (same_sig, key_from_lookup)
         ctx.inst(prefix + "/D4", "decrement guarded by authorised-key lookup and valid signature", ok4, detail, b.at(d.bb))
     check_verify_payload(ctx, prefix + "/D5")
 
